@@ -43,13 +43,13 @@ VARIABLES
   nextId, pushed, \* durable: AUTOINCREMENT counter, every message key ever inserted
   wk,             \* volatile: the worker (program counter, message in hand, task outcome)
   ledger,         \* ghost: per task the sequence of executions (what the task saw)
-  starts,         \* ghost: per stage, number of NOT_STARTED -> RUNNING claims
+  gh,             \* ghost record: starts / rearms per stage, tasks with a recorded result, cancel bookkeeping
   cnt,            \* ghost: bounded-exploration counters
   lbl             \* ghost: label of the last step (excluded from the fingerprint by VIEW)
 
 durable == <<wf, st, tk, q, dlq, done, claims, nextId, pushed>>
-vars    == <<wf, st, tk, q, dlq, done, claims, nextId, pushed, wk, ledger, starts, cnt, lbl>>
-View    == <<wf, st, tk, q, dlq, done, claims, nextId, pushed, wk, ledger, starts, cnt>>
+vars    == <<wf, st, tk, q, dlq, done, claims, nextId, pushed, wk, ledger, gh, cnt, lbl>>
+View    == <<wf, st, tk, q, dlq, done, claims, nextId, pushed, wk, ledger, gh, cnt>>
 
 -----------------------------------------------------------------------------
 (* Program accessors *)
@@ -214,7 +214,11 @@ Init ==
   /\ dlq = {} /\ done = {} /\ claims = <<>>
   /\ wk = [pc |-> "idle", mid |-> NoMsg, out |-> ""]
   /\ ledger = [t \in AllTasks |-> <<>>]
-  /\ starts = [s \in Stages |-> 0]
+  /\ gh = [starts |-> [s \in Stages |-> 0],      \* NOT_STARTED -> RUNNING claims per stage
+           rearms |-> [s \in Stages |-> 0],      \* times a jump re-armed the stage
+           resulted |-> {},                      \* tasks whose RunTask result commit is durable (this iteration)
+           execAfterCancel |-> 0,                \* task executions after the cancel flag became durable
+           unfinishedAtCancel |-> {}]            \* stages still needing a task execution when the flag was set
   /\ cnt = Cnt0
   /\ lbl = [name |-> "Init", mid |-> NoMsg, c |-> FALSE]
 
@@ -235,54 +239,54 @@ Poll(m) ==
   /\ q' = (q \ {m}) \cup {[m EXCEPT !.lock = TRUE, !.att = @ + 1]}
   /\ wk' = [pc |-> "polled", mid |-> m.id, out |-> ""]
   /\ lbl' = [name |-> "Poll", mid |-> m.id, c |-> TRUE]
-  /\ UNCHANGED <<wf, st, tk, dlq, done, claims, nextId, pushed, ledger, starts, cnt>>
+  /\ UNCHANGED <<wf, st, tk, dlq, done, claims, nextId, pushed, ledger, gh, cnt>>
 
 (* durable duplicate check (queue/processor/mixins.py:_handle_message) *)
 Dedup ==
   /\ wk.pc = "polled"
   /\ SetWk(IF wk.mid \in done THEN "ack" ELSE "handle")
   /\ LabelN(IF wk.mid \in done THEN "DedupSkip" ELSE "DedupNew")
-  /\ UNCHANGED <<durable, ledger, starts, cnt>>
+  /\ UNCHANGED <<durable, ledger, gh, cnt>>
 
 HRet ==    \* the handler returned; only legal after its last commit or on a no-commit branch
   /\ wk.pc = "hdone"
   /\ SetWk("postmark") /\ LabelN("HRet")
-  /\ UNCHANGED <<durable, ledger, starts, cnt>>
+  /\ UNCHANGED <<durable, ledger, gh, cnt>>
 
 PostMark ==
   /\ wk.pc = "postmark"
   /\ done' = done \cup {wk.mid}
   /\ SetWk("ack") /\ Label("PostMark")
-  /\ UNCHANGED <<wf, st, tk, q, dlq, claims, nextId, pushed, ledger, starts, cnt>>
+  /\ UNCHANGED <<wf, st, tk, q, dlq, claims, nextId, pushed, ledger, gh, cnt>>
 
 Ack ==
   /\ wk.pc = "ack"
   /\ q' = q \ {Cur}
   /\ wk' = [pc |-> "idle", mid |-> NoMsg, out |-> ""] /\ Label("Ack")
-  /\ UNCHANGED <<wf, st, tk, dlq, done, claims, nextId, pushed, ledger, starts, cnt>>
+  /\ UNCHANGED <<wf, st, tk, dlq, done, claims, nextId, pushed, ledger, gh, cnt>>
 
 Withhold ==   \* the ack is lost: the message stays locked and is redelivered after LockExpire
   /\ wk.pc = "ack" /\ cnt.withheld < MaxWithhold
   /\ wk' = [pc |-> "idle", mid |-> NoMsg, out |-> ""] /\ LabelN("Withhold")
   /\ cnt' = [cnt EXCEPT !.withheld = @ + 1]
-  /\ UNCHANGED <<durable, ledger, starts>>
+  /\ UNCHANGED <<durable, ledger, gh>>
 
 HRaise ==    \* the handler raised (see the handlers for which states do)
   /\ wk.pc = "raise"
   /\ SetWk("failed") /\ LabelN("HRaise")
-  /\ UNCHANGED <<durable, ledger, starts, cnt>>
+  /\ UNCHANGED <<durable, ledger, gh, cnt>>
 
 Reschedule ==  \* processor error path: visible again after retry_delay, lock released
   /\ wk.pc = "failed"
   /\ q' = (q \ {Cur}) \cup {[Cur EXCEPT !.lock = FALSE, !.delayed = TRUE]}
   /\ wk' = [pc |-> "idle", mid |-> NoMsg, out |-> ""] /\ Label("Reschedule")
-  /\ UNCHANGED <<wf, st, tk, dlq, done, claims, nextId, pushed, ledger, starts, cnt>>
+  /\ UNCHANGED <<wf, st, tk, dlq, done, claims, nextId, pushed, ledger, gh, cnt>>
 
 -----------------------------------------------------------------------------
 (* Handlers.  H == wk.pc = "handle" /\ Cur.typ = ... ; each action is one commit (or a
    no-commit branch, which goes straight to "hdone"). *)
 H(typ) == wk.pc = "handle" /\ Cur.typ = typ
-NoCommit(name) == /\ SetWk("postmark") /\ LabelN(name) /\ UNCHANGED <<durable, ledger, starts, cnt>>
+NoCommit(name) == /\ SetWk("postmark") /\ LabelN(name) /\ UNCHANGED <<durable, ledger, gh, cnt>>
 
 (* handlers/start_workflow.py *)
 StartWorkflow ==
@@ -292,7 +296,7 @@ StartWorkflow ==
      ELSE /\ wf' = [wf EXCEPT !.status = "RUNNING"]
           /\ Commit(Map(StartStageM, InOrder(Initial)), TRUE)
           /\ SetWk("hdone") /\ Label("StartWorkflow")
-          /\ UNCHANGED <<st, tk, dlq, claims, ledger, starts, cnt>>
+          /\ UNCHANGED <<st, tk, dlq, claims, ledger, gh, cnt>>
 
 (* handlers/start_stage/handler.py *)
 ShouldSkip(s) == P.enabled[s] = "no"
@@ -307,7 +311,7 @@ StartStage ==
      CASE r = "SKIP" ->      \* an upstream halted: nothing to start, let the workflow finish
             /\ Commit(<<CompleteWorkflowM>>, FALSE)
             /\ SetWk("hdone") /\ Label("StartStageUpstreamHalted")
-            /\ UNCHANGED <<wf, st, tk, dlq, claims, ledger, starts, cnt>>
+            /\ UNCHANGED <<wf, st, tk, dlq, claims, ledger, gh, cnt>>
        [] r = "WAIT" -> NoCommit("StartStageNotReady")
        [] r = "RETRY" ->
             IF Cur.rc >= MaxStageWait
@@ -316,35 +320,35 @@ StartStage ==
                       /\ tk' = Touch(tk, s)
                       /\ Commit(<<CompleteStageM(s)>>, FALSE)
                       /\ SetWk("hdone") /\ Label("StartStageWaitExhausted")
-                      /\ UNCHANGED <<wf, dlq, claims, ledger, starts, cnt>>
+                      /\ UNCHANGED <<wf, dlq, claims, ledger, gh, cnt>>
                  ELSE \* validate_transition raises; generic handler records the error
                       /\ st' = Bump(st, s) /\ tk' = Touch(tk, s)
                       /\ Commit(<<CompleteStageM(s)>>, FALSE)
                       /\ SetWk("hdone") /\ Label("StartStageWaitExhaustedNoop")
-                      /\ UNCHANGED <<wf, dlq, claims, ledger, starts, cnt>>
+                      /\ UNCHANGED <<wf, dlq, claims, ledger, gh, cnt>>
             ELSE /\ Commit(<<StartStageRC(s, Cur.rc + 1)>>, FALSE)
                  /\ SetWk("hdone") /\ Label("StartStageRequeue")
-                 /\ UNCHANGED <<wf, st, tk, dlq, claims, ledger, starts, cnt>>
+                 /\ UNCHANGED <<wf, st, tk, dlq, claims, ledger, gh, cnt>>
        [] r = "READY" ->
             IF st[s].status # "NOT_STARTED"
             THEN NoCommit("StartStageIgnored")    \* (zombie re-plan needs builder-made tasks: StartStageZombie)
             ELSE IF ShouldSkip(s)
             THEN /\ Commit(<<SkipStageM(s)>>, TRUE)
                  /\ SetWk("hdone") /\ Label("StartStageDisabled")
-                 /\ UNCHANGED <<wf, st, tk, dlq, claims, ledger, starts, cnt>>
+                 /\ UNCHANGED <<wf, st, tk, dlq, claims, ledger, gh, cnt>>
             ELSE IF MutexBlocked(s)
             THEN /\ Commit(<<StartStageRC(s, Cur.rc + 1)>>, FALSE)
                  /\ SetWk("hdone") /\ Label("StartStageMutexWait")
-                 /\ UNCHANGED <<wf, st, tk, dlq, claims, ledger, starts, cnt>>
+                 /\ UNCHANGED <<wf, st, tk, dlq, claims, ledger, gh, cnt>>
             ELSE IF ChoiceClaimed(s)
             THEN /\ Commit(<<CancelStageM(s)>>, TRUE)
                  /\ SetWk("hdone") /\ Label("StartStageChoiceLost")
-                 /\ UNCHANGED <<wf, st, tk, dlq, claims, ledger, starts, cnt>>
+                 /\ UNCHANGED <<wf, st, tk, dlq, claims, ledger, gh, cnt>>
             ELSE \* the claim: NOT_STARTED -> RUNNING under version + status compare-and-swap
                  /\ st' = [Bump(st, s) EXCEPT ![s].status = "RUNNING", ![s].started = TRUE,
                                               ![s].bypass = FALSE]
                  /\ tk' = Touch(tk, s)
-                 /\ starts' = [starts EXCEPT ![s] = @ + 1]
+                 /\ gh' = [gh EXCEPT !.starts[s] = @ + 1]
                  /\ NoQueueChange
                  /\ SetWk("ss_claimed") /\ Label("StartStageClaim")
                  /\ UNCHANGED <<wf, dlq, claims, ledger, cnt>>
@@ -356,7 +360,7 @@ StartStagePlan ==   \* second commit: planned context + tasks + first continuati
      /\ tk' = Touch(tk, s)
      /\ Commit(IF TasksOf(s) # <<>> THEN <<StartTaskM(TasksOf(s)[1])>> ELSE <<CompleteStageM(s)>>, TRUE)
      /\ SetWk("hdone") /\ Label("StartStagePlan")
-     /\ UNCHANGED <<wf, dlq, claims, ledger, starts, cnt>>
+     /\ UNCHANGED <<wf, dlq, claims, ledger, gh, cnt>>
 
 (* handlers/start_task.py *)
 StartTask ==
@@ -364,12 +368,12 @@ StartTask ==
   /\ LET t == Cur.t s == Cur.s IN
      IF tk[t].status # "NOT_STARTED"
      THEN /\ Commit(<<>>, TRUE) /\ SetWk("hdone") /\ Label("StartTaskIgnored")
-          /\ UNCHANGED <<wf, st, tk, dlq, claims, ledger, starts, cnt>>
+          /\ UNCHANGED <<wf, st, tk, dlq, claims, ledger, gh, cnt>>
      ELSE /\ tk' = [Touch(tk, s) EXCEPT ![t].status = "RUNNING"]
           /\ st' = Bump(st, s)
           /\ Commit(<<RunTaskM(t)>>, TRUE)
           /\ SetWk("hdone") /\ Label("StartTask")
-          /\ UNCHANGED <<wf, dlq, claims, ledger, starts, cnt>>
+          /\ UNCHANGED <<wf, dlq, claims, ledger, gh, cnt>>
 
 (* handlers/run_task/handler.py: guards, then task.execute (not durable), then the result commit *)
 Outcome(t) ==
@@ -390,7 +394,7 @@ RunTaskGuard ==
         THEN Commit(<<>>, TRUE) /\ Label("RunTaskIgnored")
         ELSE Commit(<<CompleteTaskM(t, "CANCELED")>>, TRUE) /\ Label("RunTaskCanceled")
      /\ SetWk("hdone")
-     /\ UNCHANGED <<wf, st, tk, dlq, claims, ledger, starts, cnt>>
+     /\ UNCHANGED <<wf, st, tk, dlq, claims, ledger, gh, cnt>>
 
 RunTaskExec ==
   /\ H("RunTask")
@@ -399,59 +403,61 @@ RunTaskExec ==
      /\ ledger' = [ledger EXCEPT ![t] = Append(@, [prog |-> tk[t].prog, jumps |-> st[s].jumps, sig |-> st[s].sig])]
      /\ wk' = [wk EXCEPT !.pc = "rt_result", !.out = Outcome(t)]
      /\ LabelN("RunTaskExec")
-     /\ UNCHANGED <<durable, starts, cnt>>
+     /\ UNCHANGED <<durable, gh, cnt>>
 
 RetryBudgetLeft == (IF FixRetry THEN Cur.att ELSE Cur.att) + 1 < MaxAttempts
 
 RunTaskResult ==
   /\ wk.pc = "rt_result"
   /\ LET t == Cur.t s == Cur.s o == wk.out IN
-     CASE o = "succ" ->
-            /\ st' = Bump(st, s) /\ tk' = Touch(tk, s)
-            /\ Commit(<<CompleteTaskM(t, "SUCCEEDED")>>, TRUE)
-            /\ SetWk("hdone") /\ Label("RunTaskSucceeded")
-            /\ UNCHANGED <<wf, dlq, claims, ledger, starts, cnt>>
-       [] o = "term" ->
-            /\ st' = Bump(st, s) /\ tk' = Touch(tk, s)
-            /\ Commit(<<CompleteTaskM(t, FailureStatus(s))>>, TRUE)
-            /\ SetWk("hdone") /\ Label("RunTaskTerminal")
-            /\ UNCHANGED <<wf, dlq, claims, ledger, starts, cnt>>
-       [] o = "running" ->     \* still running: same RunTask re-queued with a delay, no mark
-            /\ st' = Bump(st, s)
-            /\ tk' = [Touch(tk, s) EXCEPT ![t].prog = @ + 1]
-            /\ Commit(<<RunTaskDelayed(t)>>, FALSE)
-            /\ SetWk("hdone") /\ Label("RunTaskStillRunning")
-            /\ UNCHANGED <<wf, dlq, claims, ledger, starts, cnt>>
-       [] o \in {"transient", "transientnc"} ->
-            IF RetryBudgetLeft
-            THEN /\ IF o = "transient"
-                    THEN st' = Bump(st, s) /\ tk' = [Touch(tk, s) EXCEPT ![t].prog = @ + 1]
-                    ELSE st' = st /\ tk' = tk
-                 /\ Commit(<<RunTaskDelayed(t)>>, FALSE)
-                 /\ SetWk("hdone") /\ Label("RunTaskTransientRetry")
-                 /\ UNCHANGED <<wf, dlq, claims, ledger, starts, cnt>>
-            ELSE /\ st' = Bump(st, s) /\ tk' = Touch(tk, s)
-                 /\ Commit(<<CompleteTaskM(t, FailureStatus(s))>>, TRUE)
-                 /\ SetWk("hdone") /\ Label("RunTaskRetriesExhausted")
-                 /\ UNCHANGED <<wf, dlq, claims, ledger, starts, cnt>>
-       [] o = "jump" ->
-            /\ st' = Bump(st, s) /\ tk' = Touch(tk, s)
-            /\ Commit(<<JumpM(s, P.beh[t].target), CompleteTaskM(t, "REDIRECT")>>, TRUE)
-            /\ SetWk("hdone") /\ Label("RunTaskRedirect")
-            /\ UNCHANGED <<wf, dlq, claims, ledger, starts, cnt>>
-       [] o = "suspend" ->
-            IF st[s].buf > 0
-            THEN \* a buffered signal is consumed and the task re-run in the same commit
-                 /\ st' = [Bump(st, s) EXCEPT ![s].buf = @ - 1, ![s].sig = TRUE]
-                 /\ tk' = Touch(tk, s)
-                 /\ Commit(<<RunTaskM(t)>>, TRUE)
-                 /\ SetWk("hdone") /\ Label("RunTaskSuspendConsumed")
-                 /\ UNCHANGED <<wf, dlq, claims, ledger, starts, cnt>>
-            ELSE /\ st' = [Bump(st, s) EXCEPT ![s].status = "SUSPENDED"]
-                 /\ tk' = [Touch(tk, s) EXCEPT ![t].status = "SUSPENDED"]
-                 /\ Commit(<<>>, TRUE)
-                 /\ SetWk("hdone") /\ Label("RunTaskSuspended")
-                 /\ UNCHANGED <<wf, dlq, claims, ledger, starts, cnt>>
+     /\ gh' = IF o \in {"succ", "term", "jump"} \/ (o \in {"transient", "transientnc"} /\ ~RetryBudgetLeft)
+              THEN [gh EXCEPT !.resulted = @ \cup {t}] ELSE gh
+     /\ CASE o = "succ" ->
+               /\ st' = Bump(st, s) /\ tk' = Touch(tk, s)
+               /\ Commit(<<CompleteTaskM(t, "SUCCEEDED")>>, TRUE)
+               /\ SetWk("hdone") /\ Label("RunTaskSucceeded")
+               /\ UNCHANGED <<wf, dlq, claims, ledger, cnt>>
+          [] o = "term" ->
+               /\ st' = Bump(st, s) /\ tk' = Touch(tk, s)
+               /\ Commit(<<CompleteTaskM(t, FailureStatus(s))>>, TRUE)
+               /\ SetWk("hdone") /\ Label("RunTaskTerminal")
+               /\ UNCHANGED <<wf, dlq, claims, ledger, cnt>>
+          [] o = "running" ->     \* still running: same RunTask re-queued with a delay, no mark
+               /\ st' = Bump(st, s)
+               /\ tk' = [Touch(tk, s) EXCEPT ![t].prog = @ + 1]
+               /\ Commit(<<RunTaskDelayed(t)>>, FALSE)
+               /\ SetWk("hdone") /\ Label("RunTaskStillRunning")
+               /\ UNCHANGED <<wf, dlq, claims, ledger, cnt>>
+          [] o \in {"transient", "transientnc"} ->
+               IF RetryBudgetLeft
+               THEN /\ IF o = "transient"
+                       THEN st' = Bump(st, s) /\ tk' = [Touch(tk, s) EXCEPT ![t].prog = @ + 1]
+                       ELSE st' = st /\ tk' = tk
+                    /\ Commit(<<RunTaskDelayed(t)>>, FALSE)
+                    /\ SetWk("hdone") /\ Label("RunTaskTransientRetry")
+                    /\ UNCHANGED <<wf, dlq, claims, ledger, cnt>>
+               ELSE /\ st' = Bump(st, s) /\ tk' = Touch(tk, s)
+                    /\ Commit(<<CompleteTaskM(t, FailureStatus(s))>>, TRUE)
+                    /\ SetWk("hdone") /\ Label("RunTaskRetriesExhausted")
+                    /\ UNCHANGED <<wf, dlq, claims, ledger, cnt>>
+          [] o = "jump" ->
+               /\ st' = Bump(st, s) /\ tk' = Touch(tk, s)
+               /\ Commit(<<JumpM(s, P.beh[t].target), CompleteTaskM(t, "REDIRECT")>>, TRUE)
+               /\ SetWk("hdone") /\ Label("RunTaskRedirect")
+               /\ UNCHANGED <<wf, dlq, claims, ledger, cnt>>
+          [] o = "suspend" ->
+               IF st[s].buf > 0
+               THEN \* a buffered signal is consumed and the task re-run in the same commit
+                    /\ st' = [Bump(st, s) EXCEPT ![s].buf = @ - 1, ![s].sig = TRUE]
+                    /\ tk' = Touch(tk, s)
+                    /\ Commit(<<RunTaskM(t)>>, TRUE)
+                    /\ SetWk("hdone") /\ Label("RunTaskSuspendConsumed")
+                    /\ UNCHANGED <<wf, dlq, claims, ledger, cnt>>
+               ELSE /\ st' = [Bump(st, s) EXCEPT ![s].status = "SUSPENDED"]
+                    /\ tk' = [Touch(tk, s) EXCEPT ![t].status = "SUSPENDED"]
+                    /\ Commit(<<>>, TRUE)
+                    /\ SetWk("hdone") /\ Label("RunTaskSuspended")
+                    /\ UNCHANGED <<wf, dlq, claims, ledger, cnt>>
 
 (* handlers/complete_task.py *)
 CompleteTask ==
@@ -459,14 +465,14 @@ CompleteTask ==
   /\ LET t == Cur.t s == Cur.s IN
      IF tk[t].status # "RUNNING"
      THEN /\ Commit(<<>>, TRUE) /\ SetWk("hdone") /\ Label("CompleteTaskIgnored")
-          /\ UNCHANGED <<wf, st, tk, dlq, claims, ledger, starts, cnt>>
+          /\ UNCHANGED <<wf, st, tk, dlq, claims, ledger, gh, cnt>>
      ELSE /\ tk' = [Touch(tk, s) EXCEPT ![t].status = Cur.status]
           /\ st' = Bump(st, s)
           /\ Commit(IF Cur.status = "REDIRECT" THEN <<>>
                     ELSE IF NextTask(t) # "" THEN <<StartTaskM(NextTask(t))>>
                     ELSE <<CompleteStageM(s)>>, TRUE)
           /\ SetWk("hdone") /\ Label("CompleteTask")
-          /\ UNCHANGED <<wf, dlq, claims, ledger, starts, cnt>>
+          /\ UNCHANGED <<wf, dlq, claims, ledger, gh, cnt>>
 
 (* handlers/complete_stage/handler.py *)
 JoinTracked(d) == P.join[d] \in {"DISCRIMINATOR", "N_OF_M"}
@@ -477,15 +483,15 @@ CompleteStage ==
   /\ LET s == Cur.s ds == DetermineStatus(s) IN
      IF st[s].status = "NOT_STARTED"
      THEN /\ Commit(<<>>, TRUE) /\ SetWk("hdone") /\ Label("CompleteStageNotStarted")
-          /\ UNCHANGED <<wf, st, tk, dlq, claims, ledger, starts, cnt>>
+          /\ UNCHANGED <<wf, st, tk, dlq, claims, ledger, gh, cnt>>
      ELSE IF st[s].status # "RUNNING"
      THEN IF st[s].status \in Halt
           THEN /\ Commit(<<CompleteWorkflowM>>, TRUE) /\ SetWk("hdone") /\ Label("CompleteStageAlreadyHalted")
-               /\ UNCHANGED <<wf, st, tk, dlq, claims, ledger, starts, cnt>>
+               /\ UNCHANGED <<wf, st, tk, dlq, claims, ledger, gh, cnt>>
           ELSE NoCommit("CompleteStageIgnored")
      ELSE IF ds = "RUNNING"
      THEN /\ Commit(<<>>, TRUE) /\ SetWk("hdone") /\ Label("CompleteStageStillRunning")
-          /\ UNCHANGED <<wf, st, tk, dlq, claims, ledger, starts, cnt>>
+          /\ UNCHANGED <<wf, st, tk, dlq, claims, ledger, gh, cnt>>
      ELSE IF ds \in {"SUCCEEDED", "FAILED_CONTINUE", "SKIPPED"} /\ ToTrack(s) # {}
      THEN \* join tracking: one own-commit store_stage per first-of / quorum downstream
           LET d == CHOOSE x \in ToTrack(s) : \A y \in ToTrack(s) : IdxStage(x) <= IdxStage(y) IN
@@ -493,20 +499,20 @@ CompleteStage ==
           /\ tk' = Touch(tk, d)
           /\ NoQueueChange
           /\ Label("CompleteStageJoinTrack") /\ UNCHANGED wk
-          /\ UNCHANGED <<wf, dlq, claims, ledger, starts, cnt>>
+          /\ UNCHANGED <<wf, dlq, claims, ledger, gh, cnt>>
      ELSE IF ds \in {"SUCCEEDED", "FAILED_CONTINUE", "SKIPPED"}
      THEN /\ st' = [Bump(st, s) EXCEPT ![s].status = ds]
           /\ tk' = Touch(tk, s)
           /\ Commit(IF Downstream(s) # {} THEN Map(StartStageM, InOrder(Downstream(s)))
                     ELSE <<CompleteWorkflowM>>, TRUE)
           /\ SetWk("hdone") /\ Label("CompleteStage")
-          /\ UNCHANGED <<wf, dlq, claims, ledger, starts, cnt>>
+          /\ UNCHANGED <<wf, dlq, claims, ledger, gh, cnt>>
      ELSE \* halting (or suspended / paused) status: cancel own remnants, finish the workflow; NO mark
           /\ st' = [Bump(st, s) EXCEPT ![s].status = ds]
           /\ tk' = Touch(tk, s)
           /\ Commit(<<CancelStageM(s), CompleteWorkflowM>>, FALSE)
           /\ SetWk("hdone") /\ Label("CompleteStageHalt")
-          /\ UNCHANGED <<wf, dlq, claims, ledger, starts, cnt>>
+          /\ UNCHANGED <<wf, dlq, claims, ledger, gh, cnt>>
 
 (* handlers/skip_stage.py *)
 SkipStage ==
@@ -519,7 +525,7 @@ SkipStage ==
           /\ Commit(IF Downstream(s) # {} THEN Map(StartStageM, InOrder(Downstream(s)))
                     ELSE <<CompleteWorkflowM>>, TRUE)
           /\ SetWk("hdone") /\ Label("SkipStage")
-          /\ UNCHANGED <<wf, dlq, claims, ledger, starts, cnt>>
+          /\ UNCHANGED <<wf, dlq, claims, ledger, gh, cnt>>
 
 (* handlers/cancel_stage.py *)
 CancelStage ==
@@ -535,7 +541,7 @@ CancelStage ==
                       ELSE tk[t]]
           /\ Commit(<<>>, TRUE)
           /\ SetWk("hdone") /\ Label("CancelStage")
-          /\ UNCHANGED <<wf, dlq, claims, ledger, starts, cnt>>
+          /\ UNCHANGED <<wf, dlq, claims, ledger, gh, cnt>>
 
 (* handlers/complete_workflow.py *)
 CompleteWorkflow ==
@@ -546,40 +552,99 @@ CompleteWorkflow ==
      ELSE IF f = "RETRY"
      THEN /\ Commit(<<CompleteWorkflowRC(Cur.rc + 1)>>, FALSE)
           /\ SetWk("hdone") /\ Label("CompleteWorkflowRequeue")
-          /\ UNCHANGED <<wf, st, tk, dlq, claims, ledger, starts, cnt>>
+          /\ UNCHANGED <<wf, st, tk, dlq, claims, ledger, gh, cnt>>
      ELSE IF ~CanTransition(wf.status, f)
      THEN \* e.g. NOT_STARTED -> SUCCEEDED: set_workflow_status raises out of the handler
           /\ SetWk("failed") /\ LabelN("CompleteWorkflowIllegal")
-          /\ UNCHANGED <<durable, ledger, starts, cnt>>
+          /\ UNCHANGED <<durable, ledger, gh, cnt>>
      ELSE /\ wf' = [wf EXCEPT !.status = f]
           /\ Commit(IF f = "SUCCEEDED" THEN <<>>
                     ELSE Map(CancelStageM, InOrder({s \in TopLevel : st[s].status = "RUNNING"})), TRUE)
           /\ SetWk("hdone") /\ Label("CompleteWorkflow")
-          /\ UNCHANGED <<st, tk, dlq, claims, ledger, starts, cnt>>
+          /\ UNCHANGED <<st, tk, dlq, claims, ledger, gh, cnt>>
 
 (* handlers/workflow_control.py: CancelWorkflowHandler - flag commit, then one transaction *)
 CancelWorkflowFlag ==
   /\ H("CancelWorkflow")
   /\ IF wf.status \in Complete
      THEN /\ Commit(<<>>, TRUE) /\ SetWk("hdone") /\ Label("CancelWorkflowIgnored")
-          /\ UNCHANGED <<wf, st, tk, dlq, claims, ledger, starts, cnt>>
+          /\ UNCHANGED <<wf, st, tk, dlq, claims, ledger, gh, cnt>>
      ELSE /\ wf' = [wf EXCEPT !.canceled = TRUE]
           /\ NoQueueChange
+          /\ gh' = IF wf.canceled THEN gh
+                   ELSE [gh EXCEPT !.unfinishedAtCancel =
+                           {s \in TopLevel : /\ s \in DOMAIN st /\ st[s].status \notin Complete
+                                             /\ \E t \in TaskSet(s) : \/ tk[t].status = "NOT_STARTED"
+                                                                      \/ (tk[t].status = "RUNNING" /\ t \notin gh.resulted)}]
           /\ SetWk("cw_flagged") /\ Label("CancelWorkflowFlag")
-          /\ UNCHANGED <<st, tk, dlq, claims, ledger, starts, cnt>>
+          /\ UNCHANGED <<st, tk, dlq, claims, ledger, cnt>>
 
 CancelWorkflowTxn ==
   /\ wk.pc = "cw_flagged"
   /\ Commit(Map(CancelStageM, InOrder({s \in TopLevel : s \in DOMAIN st /\ st[s].status \notin Complete}))
             \o <<CompleteWorkflowM>>, TRUE)
   /\ SetWk("hdone") /\ Label("CancelWorkflowTxn")
-  /\ UNCHANGED <<wf, st, tk, dlq, claims, ledger, starts, cnt>>
+  /\ UNCHANGED <<wf, st, tk, dlq, claims, ledger, gh, cnt>>
+
+(* handlers/jump_to_stage: traversal.py + reset.py + handler.py.  All mutations of one jump, the
+   processed mark and the StartStage of the target are ONE transaction. *)
+RECURSIVE Closure(_)
+Closure(S) == LET N == {x \in Stages \ S : P.req[x] # {} /\ P.req[x] \subseteq S}
+              IN IF N = {} THEN S ELSE Closure(S \cup N)
+RECURSIVE DepClosure(_)
+DepClosure(S) == LET N == {x \in Stages \ S : P.req[x] \cap S # {}}
+                 IN IF N = {} THEN S ELSE DepClosure(S \cup N)
+Resettable(t)  == Closure({t}) \ {t}          \* get_resettable_downstream_stages
+Dependents(t)  == DepClosure({t}) \ {t}       \* get_downstream_stages (transitive)
+SkippedBy(src, tgt) == (Closure({src}) \ {src}) \ ({tgt} \cup Dependents(tgt))   \* get_skipped_stages
+ResetRow(r) == [r EXCEPT !.status = "NOT_STARTED", !.started = FALSE, !.fired = FALSE, !.cb = {},
+                         !.act = {"-"}, !.ver = @ + 1]
+
+JumpToStage ==
+  /\ H("JumpToStage")
+  /\ LET src == Cur.s tgt == Cur.target IN
+     IF st[src].jumps >= P.maxJumps
+     THEN \* budget spent: the source stage fails terminally
+          /\ st' = [Bump(st, src) EXCEPT ![src].status = "TERMINAL"]
+          /\ tk' = [t \in DOMAIN tk |->
+                      IF StageOf(t) = src
+                      THEN [tk[t] EXCEPT !.ver = @ + 1, !.status = IF @ = "RUNNING" THEN "TERMINAL" ELSE @]
+                      ELSE tk[t]]
+          /\ Commit(<<CompleteStageM(src)>>, TRUE)
+          /\ SetWk("hdone") /\ Label("JumpExhausted")
+          /\ UNCHANGED <<wf, dlq, claims, ledger, gh, cnt>>
+     ELSE LET back == src = tgt \/ src \in Dependents(tgt)
+              R    == Resettable(tgt) \ {src, tgt}
+              Sk   == IF back THEN {} ELSE {x \in SkippedBy(src, tgt) : st[x].status = "NOT_STARTED"}
+              nj   == st[src].jumps + 1
+              Rearm == R \cup {tgt} \cup (IF back THEN {src} ELSE {})
+          IN
+          /\ st' = [s \in DOMAIN st |->
+                      IF s = tgt THEN [ResetRow(st[s]) EXCEPT !.bypass = TRUE, !.jumps = nj]
+                      ELSE IF s = src
+                           THEN (IF back THEN [ResetRow(st[s]) EXCEPT !.jumps = nj]
+                                 ELSE [st[s] EXCEPT !.status = "SUCCEEDED", !.jumps = nj, !.ver = @ + 1])
+                      ELSE IF s \in R THEN ResetRow(st[s])
+                      ELSE IF s \in Sk THEN [st[s] EXCEPT !.status = "SKIPPED", !.ver = @ + 1]
+                      ELSE st[s]]
+          /\ tk' = [t \in DOMAIN tk |->
+                      LET s == StageOf(t) IN
+                      IF s \in Rearm THEN [tk[t] EXCEPT !.status = "NOT_STARTED", !.ver = @ + 1]
+                      ELSE IF s = src THEN [tk[t] EXCEPT !.ver = @ + 1,
+                                                         !.status = IF @ = "RUNNING" THEN "SUCCEEDED" ELSE @]
+                      ELSE IF s \in Sk THEN [tk[t] EXCEPT !.status = "SKIPPED", !.ver = @ + 1]
+                      ELSE tk[t]]
+          /\ Commit(<<StartStageM(tgt)>>, TRUE)
+          /\ gh' = [gh EXCEPT !.rearms = [x \in Stages |-> IF x \in Rearm THEN @[x] + 1 ELSE @[x]],
+                              !.resulted = {t \in @ : StageOf(t) \notin Rearm}]
+          /\ SetWk("hdone") /\ Label("JumpApply")
+          /\ UNCHANGED <<wf, dlq, claims, ledger, cnt>>
 
 Handlers ==
   \/ StartWorkflow \/ StartStage \/ StartStagePlan \/ StartTask
   \/ RunTaskGuard \/ RunTaskExec \/ RunTaskResult \/ CompleteTask
   \/ CompleteStage \/ SkipStage \/ CancelStage \/ CompleteWorkflow
-  \/ CancelWorkflowFlag \/ CancelWorkflowTxn
+  \/ CancelWorkflowFlag \/ CancelWorkflowTxn \/ JumpToStage
 
 -----------------------------------------------------------------------------
 (* Environment *)
@@ -587,21 +652,28 @@ LockExpire(m) ==
   /\ m \in q /\ m.lock /\ (Idle \/ m.id # wk.mid) /\ EnvOK
   /\ q' = (q \ {m}) \cup {[m EXCEPT !.lock = FALSE]}
   /\ lbl' = [name |-> "LockExpire", mid |-> m.id, c |-> TRUE]
-  /\ UNCHANGED <<wf, st, tk, dlq, done, claims, nextId, pushed, wk, ledger, starts, cnt>>
+  /\ UNCHANGED <<wf, st, tk, dlq, done, claims, nextId, pushed, wk, ledger, gh, cnt>>
 
 NothingVisible == ~\E m \in q : Visible(m)
-TimePasses(m) ==   \* virtual time: a delay elapses only when there is nothing else to do
-  /\ m \in q /\ m.delayed /\ ~m.lock /\ Idle /\ NothingVisible
+TimePasses(m) ==
+  \* Virtual time: a delay elapses only when there is nothing else to do, and no lock outlives the
+  \* wait-retry budget (production: 60 s lock vs 240 x 15 s; the small MaxStageWait used for
+  \* exploration stands for that budget, so a lapse of every lock comes first).
+  \* Task back-off delays (a re-queued RunTask: ~1 s) are shorter than the handlers' wait-retry
+  \* delay (15 s), so a waiting StartStage / CompleteWorkflow / rescheduled message wakes only when
+  \* no delayed RunTask is pending.
+  /\ m \in q /\ m.delayed /\ ~m.lock /\ Idle /\ NothingVisible /\ ~\E x \in q : x.lock
+  /\ (m.typ # "RunTask" => ~\E x \in q : x.delayed /\ x.typ = "RunTask")
   /\ q' = (q \ {m}) \cup {[m EXCEPT !.delayed = FALSE]}
   /\ lbl' = [name |-> "TimePasses", mid |-> m.id, c |-> TRUE]
-  /\ UNCHANGED <<wf, st, tk, dlq, done, claims, nextId, pushed, wk, ledger, starts, cnt>>
+  /\ UNCHANGED <<wf, st, tk, dlq, done, claims, nextId, pushed, wk, ledger, gh, cnt>>
 
 CrashWhen(allowIdle) ==   \* process kill: volatile state is lost, locks stay; a fresh worker recovers first
   /\ cnt.crashes < MaxCrashes /\ (allowIdle \/ ~Idle)
   /\ wk' = [pc |-> "idle", mid |-> NoMsg, out |-> ""]
   /\ cnt' = [cnt EXCEPT !.crashes = @ + 1, !.needSweep = TRUE]
   /\ lbl' = [name |-> "Crash", mid |-> wk.mid, c |-> FALSE]
-  /\ UNCHANGED <<durable, ledger, starts>>
+  /\ UNCHANGED <<durable, ledger, gh>>
 
 Crash == CrashWhen(FALSE)
 
@@ -640,7 +712,7 @@ Sweep ==
   /\ Commit(RecMsgs, FALSE)
   /\ cnt' = [cnt EXCEPT !.needSweep = FALSE, !.sweeps = IF cnt.needSweep THEN @ ELSE @ + 1]
   /\ lbl' = [name |-> "Sweep", mid |-> NoMsg, c |-> TRUE]
-  /\ UNCHANGED <<wf, st, tk, dlq, claims, wk, ledger, starts>>
+  /\ UNCHANGED <<wf, st, tk, dlq, claims, wk, ledger, gh>>
 
 DLQSweep ==   \* queue/sqlite/dlq.py:check_and_move_expired
   /\ Idle /\ \E m \in q : m.att >= MaxAttempts /\ ~m.lock
@@ -648,21 +720,21 @@ DLQSweep ==   \* queue/sqlite/dlq.py:check_and_move_expired
      /\ q' = q \ D
      /\ dlq' = dlq \cup {[id |-> m.id, att |-> m.att] : m \in D}
   /\ lbl' = [name |-> "DLQSweep", mid |-> NoMsg, c |-> TRUE]
-  /\ UNCHANGED <<wf, st, tk, done, claims, nextId, pushed, wk, ledger, starts, cnt>>
+  /\ UNCHANGED <<wf, st, tk, done, claims, nextId, pushed, wk, ledger, gh, cnt>>
 
 SendCancel ==
   /\ EnvOK /\ cnt.cancels < MaxCancels
   /\ Commit(<<CancelWorkflowM>>, FALSE)
   /\ cnt' = [cnt EXCEPT !.cancels = @ + 1]
   /\ lbl' = [name |-> "SendCancel", mid |-> NoMsg, c |-> TRUE]
-  /\ UNCHANGED <<wf, st, tk, dlq, claims, wk, ledger, starts>>
+  /\ UNCHANGED <<wf, st, tk, dlq, claims, wk, ledger, gh>>
 
 EarlyStart(s) ==    \* a StartStage for an arbitrary stage at an arbitrary moment
   /\ Idle /\ cnt.early < MaxEarly /\ s \in TopLevel /\ wf.status = "RUNNING"
   /\ Commit(<<StartStageM(s)>>, FALSE)
   /\ cnt' = [cnt EXCEPT !.early = @ + 1]
-  /\ lbl' = [name |-> "EarlyStart", mid |-> NoMsg, c |-> TRUE]
-  /\ UNCHANGED <<wf, st, tk, dlq, claims, wk, ledger, starts>>
+  /\ lbl' = [name |-> "EarlyStart", mid |-> <<"StartStage", s, "", 0>>, c |-> TRUE]
+  /\ UNCHANGED <<wf, st, tk, dlq, claims, wk, ledger, gh>>
 
 Environment ==
   \/ \E m \in q : LockExpire(m) \/ TimePasses(m)
